@@ -185,6 +185,12 @@ func genC08History(t *rapid.T, maxOps int, discard *memSink, probeCfg ...*cfgSpe
 	so := specOpts{faults: true, viaAny: true}
 	for i := 0; i < n; i++ {
 		kind := rapid.SampledFrom([]string{"log", "log", "bigopen", "gc", "poison", "deepstack", "errors", "clone", "terminal", "with", "sinkfail", "encfail", "panicmarshal", "reuse", "bigreflect"}).Draw(t, "historyOp")
+		if kind == "reuse" && len(probeCfg) == 0 {
+			// histories that run on several goroutines (they get no probe configuration) must not misuse a
+			// CheckedEntry: after the first Write it is back in the pool and may already belong to another
+			// goroutine, so the second Write is a data race of the CALLER's making (DESIGN 9.4)
+			kind = "clone"
+		}
 		h.names = append(h.names, kind)
 		switch kind {
 		case "log":
